@@ -47,6 +47,9 @@ static struct cmb_objectqueue *oqs[MAXO];     static int noq = 0;
 static struct cmb_priorityqueue *pqs[MAXO];   static int npq = 0;
 static struct cmb_condition *conds[MAXO];     static int ncond = 0;
 static int64_t flags[8];
+static uint64_t gvars[NVAR];
+/* handle variables 8..15 are shared between the processes, 0..7 are private */
+#define VAR(i) (*((i) >= 8 ? &gvars[(i)] : &cx->vars[(i)]))
 
 static int64_t now(void) { return (int64_t)cmb_time(); }
 
@@ -88,9 +91,9 @@ static void *procfunc(struct cmb_process *self, void *vctx)
         printf("c %d %d %" PRId64 " %s\n", me, pc, now(), c->text);
         if (!strcmp(o, "hold")) { RET(cmb_process_hold((double)a1)); }
         else if (!strcmp(o, "yield")) { RET(cmb_process_yield()); }
-        else if (!strcmp(o, "tadd")) { cx->vars[a1] = cmb_process_timer_add(self, (double)a2, a3); RETX(0, "h=%" PRIu64, cx->vars[a1]); }
-        else if (!strcmp(o, "tset")) { cx->vars[a1] = cmb_process_timer_set(self, (double)a2, a3); RETX(0, "h=%" PRIu64, cx->vars[a1]); }
-        else if (!strcmp(o, "tcancel")) { if (cx->vars[a1] == 0u) SKIP(); else RET(cmb_process_timer_cancel(self, cx->vars[a1]) ? 1 : 0); }
+        else if (!strcmp(o, "tadd")) { VAR(a1) = cmb_process_timer_add(self, (double)a2, a3); RETX(0, "h=%" PRIu64, VAR(a1)); }
+        else if (!strcmp(o, "tset")) { VAR(a1) = cmb_process_timer_set(self, (double)a2, a3); RETX(0, "h=%" PRIu64, VAR(a1)); }
+        else if (!strcmp(o, "tcancel")) { if (VAR(a1) == 0u) SKIP(); else RET(cmb_process_timer_cancel(self, VAR(a1)) ? 1 : 0); }
         else if (!strcmp(o, "tclear")) { cmb_process_timers_clear(self); RET(0); }
         else if (!strcmp(o, "resume")) { if (!running((int)a1) || a2 == 0) SKIP(); else { cmb_process_resume(&procs[a1], a2); RET(0); } }
         else if (!strcmp(o, "intr")) { if (!running((int)a1) || a2 == 0) SKIP(); else { cmb_process_interrupt(&procs[a1], a2, a3); RET(0); } }
@@ -106,9 +109,9 @@ static void *procfunc(struct cmb_process *self, void *vctx)
         else if (!strcmp(o, "exit")) { printf("x %d %" PRId64 " %lld\n", me, now(), a1); cmb_process_exit((void *)(intptr_t)a1); }
         else if (!strcmp(o, "prio")) { if (a1 < 0 || a1 >= nproc) SKIP(); else { cmb_process_priority_set(&procs[a1], a2); RET(0); } }
         else if (!strcmp(o, "waitp")) { if (a1 < 0 || a1 >= nproc) SKIP(); else RET(cmb_process_wait_process(&procs[a1])); }
-        else if (!strcmp(o, "usched")) { cx->vars[a1] = cmb_event_schedule(user_action, NULL, NULL, cmb_time() + (double)a2, a3); RETX(0, "h=%" PRIu64, cx->vars[a1]); }
-        else if (!strcmp(o, "ucancel")) { if (cx->vars[a1] == 0u) SKIP(); else RET(cmb_event_cancel(cx->vars[a1]) ? 1 : 0); }
-        else if (!strcmp(o, "waite")) { if (cx->vars[a1] == 0u || !cmb_event_is_scheduled(cx->vars[a1])) SKIP(); else RET(cmb_process_wait_event(cx->vars[a1])); }
+        else if (!strcmp(o, "usched")) { VAR(a1) = cmb_event_schedule(user_action, NULL, NULL, cmb_time() + (double)a2, a3); RETX(0, "h=%" PRIu64, VAR(a1)); }
+        else if (!strcmp(o, "ucancel")) { if (VAR(a1) == 0u) SKIP(); else RET(cmb_event_cancel(VAR(a1)) ? 1 : 0); }
+        else if (!strcmp(o, "waite")) { if (VAR(a1) == 0u || !cmb_event_is_scheduled(VAR(a1))) SKIP(); else RET(cmb_process_wait_event(VAR(a1))); }
         else if (!strcmp(o, "acq")) { if (a1 >= nres) SKIP(); else RET(cmb_resource_acquire(res[a1])); }
         else if (!strcmp(o, "pre")) { if (a1 >= nres || cmb_resource_held_by_process(res[a1], self)) SKIP(); else RET(cmb_resource_preempt(res[a1])); }
         else if (!strcmp(o, "rel")) { if (a1 >= nres || !cmb_resource_held_by_process(res[a1], self)) SKIP(); else { cmb_resource_release(res[a1]); RET(0); } }
@@ -128,14 +131,14 @@ static void *procfunc(struct cmb_process *self, void *vctx)
         else if (!strcmp(o, "kput")) {
             if (a1 >= npq) SKIP();
             else { uint64_t h = 0; const int64_t r = cmb_priorityqueue_put(pqs[a1], (void *)(uintptr_t)a2, a3, &h);
-                   if (r == 0) { cx->vars[a4] = h; RETX(r, "h=%" PRIu64, h); } else RET(r); }
+                   if (r == 0) { VAR(a4) = h; RETX(r, "h=%" PRIu64, h); } else RET(r); }
         }
-        else if (!strcmp(o, "kcancel")) { if (a1 >= npq || cx->vars[a2] == 0u) SKIP(); else RET(cmb_priorityqueue_cancel(pqs[a1], cx->vars[a2]) ? 1 : 0); }
+        else if (!strcmp(o, "kcancel")) { if (a1 >= npq || VAR(a2) == 0u) SKIP(); else RET(cmb_priorityqueue_cancel(pqs[a1], VAR(a2)) ? 1 : 0); }
         else if (!strcmp(o, "kreprio")) {
-            if (a1 >= npq || cx->vars[a2] == 0u || cmb_priorityqueue_position(pqs[a1], cx->vars[a2]) == 0u) SKIP();
-            else { cmb_priorityqueue_reprioritize(pqs[a1], cx->vars[a2], a3); RET(0); }
+            if (a1 >= npq || VAR(a2) == 0u || cmb_priorityqueue_position(pqs[a1], VAR(a2)) == 0u) SKIP();
+            else { cmb_priorityqueue_reprioritize(pqs[a1], VAR(a2), a3); RET(0); }
         }
-        else if (!strcmp(o, "kpos")) { if (a1 >= npq || cx->vars[a2] == 0u) SKIP(); else RET(cmb_priorityqueue_position(pqs[a1], cx->vars[a2])); }
+        else if (!strcmp(o, "kpos")) { if (a1 >= npq || VAR(a2) == 0u) SKIP(); else RET(cmb_priorityqueue_position(pqs[a1], VAR(a2))); }
         else if (!strcmp(o, "cwait")) {
             if (a1 >= ncond) SKIP();
             else { c->pred.kind = (int)a2; c->pred.a = (int)a3; c->pred.b = (int)a4; RET(cmb_condition_wait(conds[a1], cond_demand, c)); }
